@@ -1005,7 +1005,7 @@ Qed.
 Lemma h_liquidate_struct w liqor liqee ab lb n w' :
   h_liquidate w liqor liqee ab lb n = Ok w' -> Eff w w'.
 Proof.
-  intros H. unfold h_liquidate in H.
+  intros H. unfold h_liquidate, h_liquidate_gen in H.
   apply bind_ok in H as (ha & Hha & H). apply bind_ok in H as (hl & Hhl & H).
   apply bind_ok in H as (u3 & _ & H).
   apply bind_ok in H as (u1 & _ & H). apply bind_ok in H as (u2 & _ & H).
